@@ -37,6 +37,7 @@ var (
 	lineTexts   = []string{"err", "a.b", "100%", "a_b", "it's", "x"}
 	lineRegexes = []string{"err", `a\.b`, "(?i)err", "a.b", "e+rr", "x|y", `\d+`, "(?i)a\\.b", "100%", "a_b"}
 	extracted   = []string{"lvl", "n", "msg"}
+	jsonPaths   = []string{"order.items[0]", "order.items[1]", "a[2].b", "a[0]", "x.y", "n"}
 	rangeFns    = []string{"rate", "count_over_time", "bytes_rate", "bytes_over_time"}
 	unwrapFns   = []string{"sum_over_time", "avg_over_time", "max_over_time", "min_over_time", "rate", "first_over_time", "last_over_time"}
 	aggFns      = []string{"sum", "min", "max", "avg", "count"}
@@ -103,7 +104,12 @@ func genStages(rt *rapid.T, unwrap bool) []refeval.Stage {
 			var ps []refeval.Param
 			for _, e := range extracted {
 				if chance(rt, 60, "jsonParam") {
-					ps = append(ps, refeval.Param{Name: e, Val: e})
+					path := e
+					if chance(rt, 45, "jsonArrayPath") {
+						// paths with array indexes, shared between queries of one process
+						path = pick(rt, jsonPaths, "jsonPath")
+					}
+					ps = append(ps, refeval.Param{Name: e, Val: path})
 				}
 			}
 			if len(ps) == 0 {
@@ -202,26 +208,85 @@ func genProf(rt *rapid.T) *profSpec {
 
 func genQuery(rt *rapid.T) querySpec {
 	switch k := int(spread(rt, "lang") % 100); {
-	case k < 55:
+	case k < 48:
 		return querySpec{Kind: "logql", Log: genLogQL(rt)}
-	case k < 88:
+	case k < 76:
 		q := c11.GenScript(rt)
 		if chance(rt, 25, "durAgg") {
 			addDurationAgg(rt, &q)
 		}
 		return querySpec{Kind: "traceql", Trace: &q}
-	default:
+	case k < 86:
 		return querySpec{Kind: "prof", Prof: genProf(rt)}
+	case k < 93:
+		return genTraceTags(rt)
+	default:
+		return genLabels(rt)
 	}
 }
 
+// genTraceTags: TraceQL tag names / tag values (v2), with a selector or without (the
+// "all tags of the window's days" statements, bounded by formatted dates).
+func genTraceTags(rt *rapid.T) querySpec {
+	l := &lookupSpec{Fn: pick(rt, []string{"tags", "values"}, "tagsFn"), Key: pick(rt, []string{"a", "service.name"}, "tagKey")}
+	q := querySpec{Kind: "tracetags", Lookup: l}
+	if chance(rt, 50, "tagsWithQuery") {
+		t := c11.GenScript(rt)
+		t.Sels, t.Ops = t.Sels[:1], nil
+		q.Trace = &t
+	}
+	return q
+}
+
+// genLabels: Prometheus / Loki label-name and label-value lookups (QueryLabelsService).
+func genLabels(rt *rapid.T) querySpec {
+	l := &lookupSpec{Fn: pick(rt, []string{"labels", "values", "values"}, "labelsFn"), Key: pick(rt, labelNames, "labelKey")}
+	if l.Fn == "values" && chance(rt, 40, "labelsMatch") {
+		l.Match = []string{(&refeval.Expr{Matchers: genMatchers(rt)}).Selector()}
+	}
+	return querySpec{Kind: "labels", Lookup: l}
+}
+
 const baseS = 1_700_000_000
+
+// dayStartS is 2023-11-15 00:00:00 UTC. Date bounds are rendered from From - 30 min
+// (FormatFromDate), so a window starting in 00:00–00:30 reaches into the previous day while
+// a later window of the same day does not.
+const dayStartS = 1_700_006_400
+
+func genFrom(rt *rapid.T) int64 {
+	var s int64
+	switch k := int(spread(rt, "fromKind") % 100); {
+	case k < 30:
+		s = dayStartS + int64(spread(rt, "earlyOff")%1800)
+	case k < 55:
+		s = dayStartS + 1800 + int64(spread(rt, "laterOff")%84_000)
+	case k < 67:
+		s = dayStartS - 1 - int64(spread(rt, "prevOff")%7200)
+	case k < 77:
+		s = dayStartS + 86_400 + int64(spread(rt, "nextOff")%3600)
+	default:
+		s = baseS + int64(rapid.IntRange(0, 600).Draw(rt, "fromOff"))
+	}
+	return s * 1e9
+}
+
+// otherWindow moves a request to another window: same UTC day early / later, previous or next day.
+func otherWindow(rt *rapid.T, p execParams) execParams {
+	n := p
+	w := p.ToNs - p.FromNs
+	for k := 0; k < 4 && n.FromNs == p.FromNs; k++ {
+		n.FromNs = genFrom(rt) + p.FromNs%1e9
+	}
+	n.ToNs = n.FromNs + w
+	return n
+}
 
 // genParams draws execution parameters valid for the query kind: matrix LogQL queries get a
 // positive step and From < To (QueryRange validates both before planning); log queries are
 // run as Tail does (limit 0, step 0) or as a range query.
 func genParams(rt *rapid.T, q querySpec) execParams {
-	from := int64(baseS+rapid.IntRange(0, 600).Draw(rt, "fromOff")) * 1e9
+	from := genFrom(rt)
 	p := execParams{FromNs: from, ToNs: from + int64(rapid.IntRange(1, 900).Draw(rt, "width"))*1e9}
 	switch q.Kind {
 	case "logql":
